@@ -23,8 +23,8 @@ func (w *World) sharedSetSitesDepth(f *ssa.Function, global string, depth int) [
 			}
 		}
 	}
-	if depth > 2 || global != "decimalNaN" {
-		return out // only the poison value NaN is looked for inside helpers (other shared constants may be mere initial values)
+	if depth > 2 || (global != "decimalNaN" && global != "decimalInfinity") {
+		return out // only NaN and infinity are looked for inside helpers (other shared constants may be mere initial values)
 	}
 	// calls of unexported helpers that store the shared value into their destination on every path
 	for _, ci := range callsIn(f) {
@@ -254,6 +254,21 @@ func ruleSpecialSigns(w *World, r *RuleResult) {
 				}
 				return n > 0
 			}
+			// a helper that copies the special and sets the sign from an argument
+			if g := callee(c); g != nil && w.shortName(g) != "(*Decimal).Set" && w.shortName(g) != "(*Decimal).SetInt64" {
+				n := 0
+				for _, a := range c.Common().Args {
+					for _, v := range w.storedFieldValues(f, c, a, "Negative", 0) {
+						if strings.Contains(v, ".Negative") || w.localDerivesFromSigns(f, c, v) {
+							n++
+						}
+					}
+				}
+				if n > 0 {
+					r.ok(key, w.instrPos(c), "the helper stores d.Negative from an argument computed from the operands' signs", true)
+					continue
+				}
+			}
 			// the one-operand exits (0**positive etc.) are still covered: Pow stores neg on all of them
 			ok, ret := mustPassFrom(c, okSign, func(rt *ssa.Return) bool { return w.isErrorReturn(rt) })
 			if ok {
@@ -362,4 +377,20 @@ func (w *World) valueAndControlLeaves(f *ssa.Function, v ssa.Value) map[string]b
 	}
 	visit(v)
 	return out
+}
+
+// localDerivesFromSigns: the rendered value names a local of f (e.g. "neg", a φ or comparison) whose
+// data/control leaves include an operand's Negative field.
+func (w *World) localDerivesFromSigns(f *ssa.Function, c *ssa.Call, rendered string) bool {
+	for _, a := range c.Common().Args {
+		if w.exprOf(f, a).String() != rendered {
+			continue
+		}
+		for l := range w.valueAndControlLeaves(f, a) {
+			if strings.HasSuffix(l, ".Negative") {
+				return true
+			}
+		}
+	}
+	return false
 }
